@@ -662,6 +662,9 @@ int main(int argc, char** argv)
   OUT_FD = open(argv[3], O_WRONLY | O_CREAT | (start > 0 ? O_APPEND : O_TRUNC), 0644);
   if (OUT_FD < 0) { perror("open"); return 2; }
   if (!freopen("/dev/null", "w", stdout)) return 2;
+  // a case that does not return (observed: a huge shape parameter accepted by a mutant) is recorded like a crash, signal 14
+  signal(SIGALRM, onCrash);
+  unsigned int caseTimeout = getenv("VERIF_C03_CASE_TIMEOUT") ? (unsigned int)atoi(getenv("VERIF_C03_CASE_TIMEOUT")) : (mode == "admit" ? 30u : 300u);
   signal(SIGSEGV, onCrash); signal(SIGABRT, onCrash); signal(SIGFPE, onCrash); signal(SIGBUS, onCrash); signal(SIGILL, onCrash);
   try
   {
@@ -677,6 +680,7 @@ int main(int argc, char** argv)
       bool pset = mode == "psd" && line.find("\"k\":\"pset\"") != std::string::npos;
       if (i < start && !pset) continue;
       CUR = i;
+      alarm(caseTimeout);
       Value c = vj::parse(line);
       if (pset)
       {
